@@ -40,15 +40,19 @@ typedef enum {
   ARES_VERIF_SYNC_TJOIN       = 9,  /* obj = joined thread handle */
   ARES_VERIF_SYNC_ACCESS      = 10, /* obj = channel, aux = (void *)place/len */
   ARES_VERIF_SYNC_WAKE        = 11, /* obj = event thread */
-  /* H5: unlocked shared accesses to channel->reinit_thread */
-  ARES_VERIF_SYNC_SHARED_READ  = 12, /* obj = &var, aux = value read */
-  ARES_VERIF_SYNC_SHARED_WRITE = 13  /* obj = &var, aux = value written */
+  /* H5: unlocked shared accesses to channel->reinit_thread.  The hooks do not
+   * touch the variable themselves (they would add a racing access). */
+  ARES_VERIF_SYNC_SHARED_READ  = 12, /* obj = &var, aux = NULL */
+  ARES_VERIF_SYNC_SHARED_WRITE = 13  /* obj = &var, aux = NULL (NULL written) or
+                                      * ARES_VERIF_SHARED_NEW_HANDLE (the handle
+                                      * this thread just created was written) */
 } ares_verif_sync_t;
+#define ARES_VERIF_SHARED_NEW_HANDLE ((const void *)1)
 
 extern void (*ares_verif_sync_cb)(int kind, const void *obj, const void *aux);
 
 /* H4: event loop phases.  When set, called by the event thread (its mutex is
- * NOT held at any of these points). */
+ * NOT held at phases 1-4; it is held at EXIT). */
 typedef enum {
   ARES_VERIF_PHASE_TIMEOUT = 1, /* updates processed, about to compute timeout */
   ARES_VERIF_PHASE_WAIT    = 2, /* about to wait, arg = timeout_ms (0 = inf) */
